@@ -32,7 +32,9 @@ STORE_VALUES = {
     "segment": {"sg_0": 0, "sg_1": 1},
     "weight_cp": {"wc_a": 2.5e-7, "wc_b": 0},
     "rating regressor": {"rr_a": "Random Forest", "rr_b": "Extra Trees"},
-    "rating training set": {"ts_a": "zef18", "ts_b": "/some/path"},
+    # (a path with a character that means "comment" in other formats)
+    "rating training set": {"ts_0": "/data/ts_sample#2/user", "ts_a": "zef18",
+                            "ts_b": "/some/path"},
     "fit param E value": {"fe_a": 50.0, "fe_b": 1234.5},
     "fit param E vary": {"fv_a": False, "fv_b": True},
     "fit param R value": {"fr_a": 16e-6, "fr_b": 5e-6},
@@ -108,6 +110,12 @@ def store_histories(tier, rng):
                 if a[1] == b[1] or rng.random() < (.05 if tier == "quick"
                                                    else .5):
                     hists.append({"init": init, "ops": [a, b]})
+    for init in ("empty", "json", "legacy"):
+        for k in ("range_x", "weight_cp", "preprocessing"):
+            v = sorted(STORE_VALUES[k])[0]
+            hists.append({"init": init, "ops": [("set", k, v),
+                                                ("setbad", k),
+                                                ("get", k), ("get", "segment")]})
     n = 300 if tier == "quick" else 5000
     for _ in range(n):
         hists.append({"init": rng.choice(["empty", "json", "legacy"]),
@@ -213,7 +221,15 @@ def run_store(job):
                     # a NEW object, or one of two long-lived ones
                     pf = live[who] if who in live \
                         else profile.Profile(path=path)
-                    if op[0] == "set":
+                    if op[0] == "setbad":
+                        # a value that cannot be stored: refused, and the
+                        # refusal leaves the file as it was
+                        try:
+                            pf[op[1]] = np.array([1.5, 2.5])
+                            ev["out"] = "ok"
+                        except (TypeError, ValueError):
+                            ev["out"] = "refused"
+                    elif op[0] == "set":
                         pf[op[1]] = STORE_VALUES[op[1]][op[2]]
                     elif op[0] == "get":
                         if op[1] in profile.DEFAULTS:
